@@ -2,28 +2,26 @@
    (used by the generated Tables/EqOrdCasesGen.v).  No proofs in this file. *)
 From Verif Require Export EqOrdRun EqOrdDescModel.
 
-Definition dobs_model (fixed : bool) (rf rx : list N) (a b : desc) : N * N :=
-  (b2n (desc_eq (if fixed then eq_fixed else eq_iter) a b),
-   cmp_code (desc_cmp (if fixed then cmp_fixed else cmp_iter) (kcmp_of rf) (kcmp_of rx) a b)).
+Definition dobs_model (rf rx : list N) (a b : desc) : N * N :=
+  (b2n (desc_eq eq_iter a b), cmp_code (desc_cmp cmp_iter (kcmp_of rf) (kcmp_of rx) a b)).
 
 (* (i, j, (impl ==, impl cmp)) *)
 Definition dpcase := (N * N * (N * N))%type.
 Definition getdv (vals : list desc) (i : N) : desc := nth (N.to_nat i) vals (DPkh 0%N).
 
-Definition dpair_ok (fixed : bool) (rf rx : list N) (vals : list desc) (c : dpcase) : bool :=
+Definition dpair_ok (rf rx : list N) (vals : list desc) (c : dpcase) : bool :=
   let '(i, j, (e, o)) := c in
-  let '(e', o') := dobs_model fixed rf rx (getdv vals i) (getdv vals j) in
+  let '(e', o') := dobs_model rf rx (getdv vals i) (getdv vals j) in
   N.eqb e e' && N.eqb o o'.
 
 Record deqdom := mkDEqDom { de_rf : list N; de_rx : list N; de_vals : list desc; de_pairs : list dpcase }.
 
-Definition deqdom_ok (fixed : bool) (d : deqdom) : bool :=
-  forallb (dpair_ok fixed (de_rf d) (de_rx d) (de_vals d)) (de_pairs d).
+Definition deqdom_ok (d : deqdom) : bool :=
+  forallb (dpair_ok (de_rf d) (de_rx d) (de_vals d)) (de_pairs d).
 
-(* failing pairs: (i, j, impl, model as coded, model repaired) *)
-Definition deqdom_diag (d : deqdom) : list (N * N * (N * N) * (N * N) * (N * N)) :=
+(* failing pairs: (i, j, impl, model) *)
+Definition deqdom_diag (d : deqdom) : list (N * N * (N * N) * (N * N)) :=
   flat_map (fun c : dpcase =>
-    if dpair_ok false (de_rf d) (de_rx d) (de_vals d) c then []
+    if dpair_ok (de_rf d) (de_rx d) (de_vals d) c then []
     else let '(i, j, o) := c in
-         [(i, j, o, dobs_model false (de_rf d) (de_rx d) (getdv (de_vals d) i) (getdv (de_vals d) j),
-                    dobs_model true (de_rf d) (de_rx d) (getdv (de_vals d) i) (getdv (de_vals d) j))]) (de_pairs d).
+         [(i, j, o, dobs_model (de_rf d) (de_rx d) (getdv (de_vals d) i) (getdv (de_vals d) j))]) (de_pairs d).
